@@ -249,6 +249,7 @@ def main():
 
     # ------------------------------------------------------ conversion matrix
     conversion_matrix(ck, qr, numpy)
+    results_invariant(ck, qr, numpy, reg)
 
     ck.assume("TLC bound: 3(4) energy units, 1(2) length units, nesting <= 2"
               "(3), behaviours <= 12(16) steps; library routines modelled as "
@@ -265,6 +266,64 @@ def main():
 def _short(prog):
     s = repr(prog)
     return s if len(s) < 400 else s[:400] + "..."
+
+
+def results_invariant(ck, qr, numpy, reg):
+    """Every registry call is made under every energy-units context with its
+    inputs expressed in those units; its result, converted back with the
+    reference factors, must be the result obtained in internal units."""
+    def internal(val, kind, u):
+        if isinstance(kind, tuple):
+            return numpy.concatenate([internal(v, k, u)
+                                      for v, k in zip(val, kind)])
+        a = numpy.atleast_1d(numpy.array(val)).astype(complex).ravel()
+        if kind == "energy":
+            a = numpy.array([R.to_internal(x.real, u) +
+                             1j * R.to_internal(x.imag, u) for x in a])
+        return a
+
+    EU = ["1/cm", "eV", "meV", "THz", "nm", "J", "Ha", "1/fs"]
+    noted = set()
+    for name in sorted(reg):
+        kind = R.RETURNS.get(name)
+        if kind is None:
+            continue
+        try:
+            with qr.energy_units("int"):
+                base = internal(reg[name](), kind, "int")
+        except Exception:
+            continue
+        sc = max(float(numpy.abs(base).max()), 1e-300)
+        for u in EU:
+            rp = dict(kind="result-invariant", call=name, units=u)
+            try:
+                with qr.energy_units(u):
+                    got = internal(reg[name](), kind, u)
+            except Exception:
+                continue        # refusal under exotic units: see the notes
+            tol = 1e-6 if u in ("Ha", "a.u.") else 1e-9
+            ok = got.shape == base.shape and \
+                float(numpy.abs(got - base).max()) <= tol * sc
+            plain = "energy" not in (kind if isinstance(kind, tuple)
+                                     else (kind,))
+            if plain:
+                # rates, populations, spectra computed by calculators called
+                # inside a context: not a units-managed accessor, outside the
+                # statement of C05 -- observed and reported only
+                if not ok and name not in noted:
+                    noted.add(name)
+                    ck.note("observation outside C05: the result of %s "
+                            "depends on the energy units active at call "
+                            "time (e.g. under %s)" % (name, u))
+                continue
+            ck.case("result-units-invariant", (name, u),
+                    sample=dict(rp, ok=bool(ok)))
+            if not ok:
+                err = float(numpy.abs(got - base).max() / sc) if \
+                    got.shape == base.shape else None
+                ck.violation("result-units-invariant",
+                             "result:%s:%s" % (name, u), dict(rp, rel=err),
+                             rp)
 
 
 def conversion_matrix(ck, qr, numpy):
